@@ -114,6 +114,69 @@ impl Prop for P {
             }
             xcount("lookups_after_ignored_rejected_calls");
         }
+        // the same content STREAMED to writers that take a few bytes per call, interrupt, or cut every write at
+        // a block boundary: what a lookup on the file such a writer ends up with returns depends on the content
+        // alone (node addresses come from the builder's byte counter, which must count what was accepted)
+        if ops.len() <= 300 {
+            struct BlockSink {
+                buf: Vec<u8>,
+                block: usize,
+            }
+            impl std::io::Write for BlockSink {
+                fn write(&mut self, b: &[u8]) -> std::io::Result<usize> {
+                    let room = self.block - self.buf.len() % self.block;
+                    let n = b.len().min(room);
+                    self.buf.extend_from_slice(&b[..n]);
+                    Ok(n)
+                }
+                fn flush(&mut self) -> std::io::Result<()> {
+                    Ok(())
+                }
+            }
+            fn drive<W: std::io::Write>(w: W, ops: &[Op]) -> bool {
+                let mut b = match fst::raw::Builder::new_type(w, 0) {
+                    Ok(b) => b,
+                    Err(_) => return false,
+                };
+                for o in ops {
+                    let r = match o {
+                        Op::Add(k) => b.add(k),
+                        Op::Insert(k, v) => b.insert(k, *v),
+                    };
+                    if r.is_err() {
+                        return false;
+                    }
+                }
+                b.finish().is_ok()
+            }
+            let mut files: Vec<(String, Option<Vec<u8>>)> = vec![];
+            for (cap, intr) in [(1usize, 0usize), (3, 4), (7, 0)] {
+                let mut sk = crate::c08::CapSink::new(cap, intr);
+                let ok = drive(&mut sk, &ops);
+                files.push((format!("a writer taking {} byte(s) per call{}", cap, if intr > 0 { ", interrupting" } else { "" }), if ok { Some(sk.buf) } else { None }));
+            }
+            for block in [7usize, 64, 512] {
+                let mut sk = BlockSink { buf: vec![], block };
+                let ok = drive(&mut sk, &ops);
+                files.push((format!("a writer that cuts writes at {}-byte blocks", block), if ok { Some(sk.buf) } else { None }));
+            }
+            for (name, file) in files {
+                let opened = file.and_then(|b| std::panic::catch_unwind(|| Fst::new(b).ok()).ok().flatten());
+                match opened {
+                    None => x = format!("streamed to {}: the build fails or the file does not open", name),
+                    Some(fs) => {
+                        for (i, p) in probes.iter().enumerate() {
+                            let got = std::panic::catch_unwind(std::panic::AssertUnwindSafe(|| format!("{}/{}", fs.get(p).map(|o| o.value().to_string()).unwrap_or("~".into()), fs.contains_key(p) as u8))).unwrap_or_else(|_| "PANIC".into());
+                            if got != res[i] {
+                                x = format!("streamed to {}: probe {} gives {} but {} for the in-memory build", name, hex(p), got, res[i]);
+                                break;
+                            }
+                        }
+                    }
+                }
+            }
+            xcount("lookups_on_files_streamed_to_short_writers");
+        }
         // the same bytes attached to handles that were opened on OTHER files (map_data swaps the contents
         // of a handle): lookups answer for the bytes the handle holds now
         for other in [fst::Set::from_iter(vec!["x"]).unwrap().into_fst().into_inner(), fst::Map::from_iter((0..300u32).map(|i| (format!("k{:05}", i), i as u64 * 3))).unwrap().into_fst().into_inner()] {
